@@ -93,7 +93,7 @@ func (ft *FT) lockAcquire(st *State, guard Term, lockVal ssa.Value, pos token.Po
 					hv := ft.fresh("mon!"+g+"!c", strings.TrimSuffix(strings.TrimPrefix(ft.heaps[mk].sort, "(Array Int "), ")"))
 					ft.set(st, mk, app("store", ft.get(st, mk), nv, hv))
 				}
-				ft.assume("true", app("<=", "0", sel(ft.get(st, "ML"), nv)))
+				ft.assume("true", app("<=", "0", sel(ft.get(st, ft.mapKeys(t)[2]), nv)))
 			case *types.Slice:
 				ek := ft.elemKey(t.Elem())
 				hv := ft.fresh("mon!"+g+"!e", strings.TrimSuffix(strings.TrimPrefix(ft.heaps[ek].sort, "(Array Int "), ")"))
@@ -115,6 +115,10 @@ func (ft *FT) lockAcquire(st *State, guard Term, lockVal ssa.Value, pos token.Po
 func (ft *FT) lockRelease(st *State, guard Term, lockVal ssa.Value, pos token.Pos, write bool) {
 	m, base := ft.monitorFor(lockVal)
 	if m == nil || m.Inv == nil || !write {
+		return
+	}
+	if ft.con != nil && ft.con.NoMonitor {
+		ft.note("monitor invariant not re-checked in a nomonitor (configuration-time) function")
 		return
 	}
 	ctx := ft.monitorCtx(m, base, st)
@@ -144,23 +148,21 @@ func registerModels(e *Engine) {
 				lockDiscipline := ft.con != nil && ft.con.Strict
 				switch mode {
 				case "lock":
-					ft.oblige("lock-reentry", pos, "", guard, eq(app("select", h, l), "0"), lockDiscipline)
+					ft.oblige("lock-reentry", pos, "", guard, eq(app("select", h, l), "0"), false)
 					ft.set(st, hk, app("store", h, l, "2"))
 					if v := lockArg(c); v != nil {
 						ft.lockAcquire(st, guard, v, pos)
 					}
-					if ft.afterLock == nil {
-						ft.afterLock = st.clone()
-					}
+					// atlock() refers to the state right after the most recent lock acquisition
+					ft.afterLock = st.clone()
 				case "rlock":
-					ft.oblige("lock-reentry", pos, "", guard, not(eq(app("select", h, l), "2")), lockDiscipline)
+					ft.oblige("lock-reentry", pos, "", guard, not(eq(app("select", h, l), "2")), false)
 					ft.set(st, hk, app("store", h, l, "1"))
 					if v := lockArg(c); v != nil {
 						ft.lockAcquire(st, guard, v, pos)
 					}
-					if ft.afterLock == nil {
-						ft.afterLock = st.clone()
-					}
+					// atlock() refers to the state right after the most recent lock acquisition
+					ft.afterLock = st.clone()
 				case "unlock":
 					ft.oblige("unlock-held", pos, "", guard, eq(app("select", h, l), "2"), lockDiscipline)
 					if v := lockArg(c); v != nil {
@@ -199,6 +201,20 @@ func registerModels(e *Engine) {
 	e.models["(*sync.RWMutex).RLock"] = lock("rlock")
 	e.models["(*sync.RWMutex).RUnlock"] = lock("runlock")
 
+	noop := &funcModel{f: func(ft *FT, st *State, guard Term, c *ssa.CallCommon, args []Term, pos token.Pos) []Term {
+		sig := c.Signature()
+		var rs []Term
+		for i := 0; i < sig.Results().Len(); i++ {
+			rt := sig.Results().At(i).Type()
+			r := ft.fresh("noop", ft.d.sortOf(rt))
+			ft.assume("true", ft.typeInv(r, rt, st))
+			rs = append(rs, r)
+		}
+		return rs
+	}}
+	for _, n := range []string{"(*sync.WaitGroup).Add", "(*sync.WaitGroup).Done", "(*sync.WaitGroup).Wait", "(*time.Ticker).Stop", "(*time.Timer).Stop", "time.NewTicker", "time.NewTimer", "time.After", "time.Sleep"} {
+		e.models[n] = noop
+	}
 	// time: ghost monotone clock in nanoseconds
 	e.models["time.Now"] = &funcModel{
 		w: func(ft *FT) []string { ft.keySort("$clock", "Int"); return []string{"$clock"} },
@@ -307,6 +323,9 @@ func (ft *FT) guardedField(fa *ssa.FieldAddr, write bool, pos token.Pos, guard T
 		}
 		if !guarded {
 			continue
+		}
+		if !write && m.Owner != "" && m.Owner == ft.key {
+			continue // single-writer pattern: the owning goroutine's own reads cannot race with a write
 		}
 		// lock address of the same object
 		var muField *types.Var
